@@ -218,8 +218,8 @@ PROPS["C06"] = dict(
           "returns normally (panics caught), every single call within 12 s of CPU time (a machine under load cannot fake that; 300 s of wall clock per case count as a hang; a breach must reproduce alone in a fresh process), producing < 64 MiB and at most 400 bytes of output per displayed character. Non-trivial: at least one corruption, nesting "
           "depth >= 8, or a width <= 2. Distinct = distinct (JSON text, widths)."),
     units=[
-        rapid("Prop", "TestProp", 12000, 400000, timeout=dict(quick=600, thorough=3000)),
-        rapid("Deep", "TestDeep", 1200, 40000, timeout=dict(quick=600, thorough=3000)),
+        rapid("Prop", "TestProp", 12000, 200000, timeout=dict(quick=600, thorough=3000)),
+        rapid("Deep", "TestDeep", 1200, 10000, timeout=dict(quick=600, thorough=3000)),
         fuzz("Fuzz", "FuzzRender", "180s"),
     ],
     manifest=dict(
@@ -247,8 +247,8 @@ PROPS["C01"] = dict(
           "document carries at least one hostile token that survives JSON-level sanitising (character reference, attribute, markdown). "
           "Distinct = distinct (document, widths)."),
     units=[
-        rapid("Items", "TestItems", 12000, 400000),
-        rapid("Render", "TestRender", 20000, 800000),
+        rapid("Items", "TestItems", 12000, 200000),
+        rapid("Render", "TestRender", 20000, 400000),
         rapid("Net", "TestNet", 4000, 160000, config_toml=_NET),
         rapid("Frames", "TestFrames", 800, 40000, shards=(8, 16), config_toml=_NET, timeout=dict(quick=600, thorough=3000)),
         fuzz("Fuzz", "FuzzRender", "180s"),
